@@ -13,7 +13,8 @@ THEOREMS = ['C12_dispatch_total', 'C12_error_class', 'C12_multi_range', 'C12_int
             'timedGuards_speed', 'C12_timed_speed_window',
             'timedDecide_plain_lt', 'C12_plain_seconds_idempotent_partial', 'C12_plain_seconds_returned_unchanged',
             'timedDecide_again', 'C12_no_hours_below_800', 'C12_mss_idempotent_partial', 'C12_mss_returned_unchanged',
-            'timedDecide_again_h', 'C12_hmmss_idempotent_partial', 'C12_hmmss_returned_unchanged']
+            'timedDecide_again_h', 'C12_hmmss_idempotent_partial', 'C12_hmmss_returned_unchanged',
+            'timedDecide_nodist', 'timedDecide_again_nodist', 'C12_mss_idempotent_nodist', 'C12_hmmss_idempotent_nodist']
 
 class EK(Exception):
     pass
